@@ -9,7 +9,7 @@ HOOK_COMMITS = ["a1e4d44"]
 NOT_APPLICABLE = {}
 
 # properties whose check has been reviewed and verified on the unchanged tree; only these go into MANIFEST.json
-CLAIMED = ["C01", "C02", "C04", "C06", "C07", "C08", "C11", "C12", "C13", "C14", "C16", "C18"]
+CLAIMED = ["C01", "C02", "C04", "C06", "C07", "C08", "C11", "C12", "C13", "C14", "C16", "C18", "C19"]
 
 CHECKS = {
     "C13": dict(
@@ -231,8 +231,8 @@ CHECKS = {
                      "OffsetCommit is sent with generation -1 and no member id (simple consumer)", "SeekDontCheck is combined only with SeekAbsolute and SeekCurrent, as documented",
                      "what a failed partition's own entry carries besides Error is not judged; after an injected fault on a Conn, a later error on the same Conn is inconclusive (wrong values are not)"],
         units=[
-            dict(run="TestConn", checks_quick=9000, checks_thorough=100000, shards_quick=2, shards_thorough=8, timeout=1500),
-            dict(run="TestClient", checks_quick=3500, checks_thorough=50000, shards_quick=4, shards_thorough=8, timeout=1800),
+            dict(run="TestConn", checks_quick=9000, checks_thorough=70000, shards_quick=2, shards_thorough=8, timeout=1500),
+            dict(run="TestClient", checks_quick=3500, checks_thorough=35000, shards_quick=4, shards_thorough=8, timeout=1800),
         ],
     ),
     "C20": dict(
@@ -258,6 +258,7 @@ CHECKS = {
             dict(run="TestMutations", checks=None, shards_quick=1, shards_thorough=4, timeout=900),
             dict(run="TestTransport", checks=None, shards_quick=1, shards_thorough=2, timeout=900),
             dict(run="TestArrays", build="unsafe", checks=None, shards_quick=1, shards_thorough=2, timeout=900),
+            dict(run="TestGroupMetadata", checks=None, timeout=600),
             dict(run="FuzzReadResponse", fuzz=True, tier="thorough", fuzztime_thorough="180s", timeout=500),
         ],
     ),
